@@ -7,6 +7,7 @@ TECH = "SMT-based symbolic execution of the real Go SSA (own engine gosym, z3 de
 TRUST = "trusted base: go/ssa construction, the gosym interpreter and its listed stubs, z3 4.8.12; bounds as listed in checks/%s.json and repeated in the evidence file; nothing is claimed outside them"
 claims = {
  "C11": ("model_checking", "the real rateLimitMiddleware -> RateLimitMiddleware chain on a virtual clock: symbolic declared N, every window spelling, greedy arrivals on a time grid, against the property's bound N x (1+T/window); client identity (port, forwarding headers) with symbolic bytes", "section 4 C11"),
+ "C12": ("model_checking", "symbolic method-name byte strings through every call form (CallMethod/HasMethod, obj.m(a), m(obj,a), nested paths, field access) against a probe provider whose off-list methods fail the check when invoked; argument vectors of every kind through the modelled reflect.Call with its documented panics", "section 4 C12"),
  "C13": ("model_checking", "symbolic identifier/operator/direction/join/column-type byte strings through the real sanitizers, QueryBuilder.Build and ORM statement builders; the produced SQL must equal the fixed template over identifiers that satisfy an independently written safe grammar, with values only in the bound-argument list. Text structure only: execution against a real database is not claimed", "section 4 C13"),
  "C20": ("model_checking", "bounded symbolic execution of the real LRUCache code against a reference LRU: every feasible path of every operation history within the bounds is decided by z3; termination of Set is an unwinding obligation", "section 4 C20"),
  "C05": ("model_checking", "Router.Match on symbolic route tables and symbolic request paths against the declarative most-specific-match rule; all table shapes/orders within the bounds", "section 4 C05"),
